@@ -68,4 +68,12 @@ def adjMerge : List Int → List Int → List Int
 termination_by a b => a.length + b.length
 decreasing_by all_goals simp_wf <;> omega
 
+/-- every span holds at least one bucket (what `addBucket` builds) -/
+def LenPos (sp : List Span) : Prop := ∀ s ∈ sp, 1 ≤ s.length
+
+/-- where the layout of a chunk after an accepted append comes from: the chunk's old spans, the histogram's
+    spans, or spans built by `addBucket` that enumerate the merged layout -/
+def SpanSrc (cS hS S : List Span) : Prop :=
+  S = cS ∨ S = hS ∨ (LenPos S ∧ idxs S = mergeU (idxs cS) (idxs hS))
+
 end Prom.Hist
